@@ -21,7 +21,7 @@ import traceback
 from . import env
 
 HERE = env.HERE
-EVID = os.path.join(HERE, "evidence")
+EVID = os.environ.get("VERIF_EVIDENCE_DIR") or os.path.join(HERE, "evidence")  # redirected by the mutation self-test
 REPLAY = os.path.join(EVID, "replay")
 KF_FILE = os.path.join(HERE, "known_findings.json")
 MAX_VIOLATION_LINES = 20
